@@ -29,6 +29,7 @@ pub fn make(name: &str) -> Option<Fixture> {
         "xlsx" => (Format::Xlsx, xlsx(seed)),
         "ods" => (Format::Ods, ods(seed)),
         "xls" => (Format::Xls, xls(seed)),
+        "dual.xls" => (Format::Xls, xls_dual(seed)),
         "xlsb" => (Format::Xlsb, xlsb(seed)),
         _ => return None,
     };
@@ -409,6 +410,29 @@ fn biff_rec(out: &mut Vec<u8>, typ: u16, data: &[u8]) {
 }
 
 pub fn xls(seed: u64) -> Vec<u8> {
+    let g = xls_stream(seed, 0);
+    let dir = vec![crate::cfbfmt::make_dir_entry(0, "Root Entry", 5, 1), crate::cfbfmt::make_dir_entry(1, "Workbook", 2, crate::cfbfmt::FREESECT)];
+    let streams = vec![Vec::new(), g];
+    crate::cfbfmt::write(&dir, &streams).0
+}
+
+/// The dual-format layout Excel writes for "Excel 5.0/95 & 97-2003 workbook": a `Workbook` stream
+/// and a `Book` stream side by side, with *different* contents here, so that a reader which picks
+/// the wrong one is seen.  Readers must take `Workbook`.
+pub fn xls_dual(seed: u64) -> Vec<u8> {
+    // padded past the 4096-byte cutoff: small streams live in the mini stream, which is loaded with
+    // the container; only regular streams are read when they are asked for
+    let wb = xls_stream(seed, 6000);
+    let book = xls_stream(seed ^ 0x5EED_B00C, 5000);
+    let mut e1 = crate::cfbfmt::make_dir_entry(1, "Workbook", 2, crate::cfbfmt::FREESECT);
+    // right sibling of the first stream: the second one
+    e1.raw[72..76].copy_from_slice(&2u32.to_le_bytes());
+    let dir = vec![crate::cfbfmt::make_dir_entry(0, "Root Entry", 5, 1), e1, crate::cfbfmt::make_dir_entry(2, "Book", 2, crate::cfbfmt::FREESECT)];
+    let streams = vec![Vec::new(), wb, book];
+    crate::cfbfmt::write(&dir, &streams).0
+}
+
+fn xls_stream(seed: u64, pad: usize) -> Vec<u8> {
     let (sheets, strings) = grid_sheets(seed, "synth-xls");
     // sheet substreams first, to know their offsets
     let mut subs: Vec<Vec<u8>> = Vec::new();
@@ -480,6 +504,10 @@ pub fn xls(seed: u64) -> Vec<u8> {
     bof.extend_from_slice(&[0xBB, 0x0D, 0xCC, 0x07, 0, 0, 0, 0, 6, 0, 0, 0]);
     biff_rec(&mut g, 0x0809, &bof);
     biff_rec(&mut g, 0x0042, &1200u16.to_le_bytes());
+    if pad > 0 {
+        // BOOKEXT, which readers skip
+        biff_rec(&mut g, 0x0863, &vec![0u8; pad.min(8000)]);
+    }
     let bs_len: usize = sheets.iter().map(|s| 4 + 6 + 2 + s.name.len()).sum();
     let globals_len = g.len() + bs_len + 4;
     let mut pos = globals_len;
@@ -499,9 +527,7 @@ pub fn xls(seed: u64) -> Vec<u8> {
     for sub in subs {
         g.extend_from_slice(&sub);
     }
-    let dir = vec![crate::cfbfmt::make_dir_entry(0, "Root Entry", 5, 1), crate::cfbfmt::make_dir_entry(1, "Workbook", 2, crate::cfbfmt::FREESECT)];
-    let streams = vec![Vec::new(), g];
-    crate::cfbfmt::write(&dir, &streams).0
+    g
 }
 
 fn brt(out: &mut Vec<u8>, typ: u16, data: &[u8]) {
